@@ -27,6 +27,19 @@ def main():
     if "--replay" in args:
         replay = args[args.index("--replay") + 1]
     seed = int(os.environ.get("VERIF_SEED", "0"))
+    replay_key = None
+    if replay:
+        # generic replay: a replay file records the seed and tier of the run that produced it; the check is
+        # deterministic in (seed, tier, tree), so re-running with them re-examines the recorded failing case.
+        # Exit 1 iff a violation with the recorded key (or, failing that, any violation) is reported again.
+        try:
+            rj = json.load(open(replay))
+            seed = int(rj.get("seed", seed))
+            tier = rj.get("tier", tier)
+            replay_key = rj.get("key")
+            print("[replay] property=%s seed=%d tier=%s key=%s" % (pid, seed, tier, replay_key))
+        except Exception as e:
+            print("[replay] cannot read %s: %s" % (replay, e))
     # two runs of the same property share coq/Gen/<id>: serialise them
     os.makedirs(os.path.join(common.COQ, "Gen"), exist_ok=True)
     import fcntl
@@ -41,7 +54,7 @@ def main():
     if child == 0:
         code = 3
         try:
-            code = run_inner(ctx, pid)
+            code = run_inner(ctx, pid, replay_key)
         finally:
             sys.stdout.flush()
             sys.stderr.flush()
@@ -62,7 +75,7 @@ def main():
     return ctx.finish()
 
 
-def run_inner(ctx, pid):
+def run_inner(ctx, pid, replay_key=None):
     try:
         mod = importlib.import_module(pid.lower())
         mod.run(ctx)
@@ -74,7 +87,12 @@ def run_inner(ctx, pid):
             ctx.violation("crash:" + tb.strip().splitlines()[-1][:80],
                           "the check could not run to completion on this tree (correspondence broken): "
                           + tb.strip().splitlines()[-1][:200], {"traceback": tb}, found=False)
-    return ctx.finish()
+    code = ctx.finish()
+    if replay_key is not None:
+        again = [v for v in ctx.violations if v["key"] == replay_key]
+        print("[replay] recorded violation %s %s" % (replay_key, "REPRODUCED" if again else
+              ("not reproduced (other violations: %d)" % len(ctx.violations))))
+    return code
 
 
 if __name__ == "__main__":
